@@ -26,6 +26,8 @@ def probe(c):
 '''
 probe = None
 PHR = [(t, ln) for t in range(6) for ln in range(5)]
+# tick magnitudes: around the int32 / uint32 / int64 limits and a round large value (fast tempo keeps times small)
+BASES = (2**31 - 4, 2**32 - 5, 2**63 - 4, 10**12)
 NT = 9
 
 
@@ -45,9 +47,10 @@ def plan(tier, seed):
                 if PHR[i][0] <= PHR[j][0]:
                     shards.append(("k3", i, j))
     shards += [("long", n) for n in (8, 12, 20, 40)]
+    shards += [("big", bi, i) for bi in range(len(BASES)) for i in range(-1, len(PHR))]
     return dict(
         shards=shards,
-        bounds=dict(long_lists="lists of 8, 12, 20, 40 phrases (adjacent / nested / zero-length interspersed / overlapping ladders) with a note on every tick", max_phrases=2 if tier == "quick" else 3, phrase_start="0..5", phrase_length="0..4", note_ticks="all non-empty subsets of 0..8"),
+        bounds=dict(tick_magnitudes="the <= 1-phrase layer (and a slice of the 2-phrase layer) repeated with every tick shifted by %r" % (BASES,), long_lists="lists of 8, 12, 20, 40 phrases (adjacent / nested / zero-length interspersed / overlapping ladders) with a note on every tick", max_phrases=2 if tier == "quick" else 3, phrase_start="0..5", phrase_length="0..4", note_ticks="all non-empty subsets of 0..8"),
         budget_s=1200 if tier == "thorough" else 300,
     )
 
@@ -68,14 +71,16 @@ def body_for(phr, notes, placement):
     return out + S[i:]
 
 
-def check_list(ctx, phr, placements, nt=NT):
+def check_list(ctx, phr, placements, nt=NT, base=0):
     ctx.node()
+    if base:
+        phr = tuple((t + base, ln) for t, ln in phr)
     for k in range(1, 1 << nt):
-        notes = [i for i in range(nt) if k >> i & 1]
+        notes = [i + base for i in range(nt) if k >> i & 1]
         expected = [[n, next((i for i, (t, ln) in enumerate(phr) if t <= n < t + ln), None)] for n in notes]
         for pl in placements:
             body = body_for(phr, notes, pl)
-            text = mk(tracks={"ExpertSingle": body})
+            text = mk(tracks={"ExpertSingle": body}) if not base else mk(res=960, sync=["0 = TS 4", "0 = B 1000000000"], tracks={"ExpertSingle": body})
             got = e1.run_probe(probe, text)
             ctx.case(text, nontrivial=bool(phr), sample=lambda: dict(body=body, expected=expected))
             ctx.evaluations += len(notes)
@@ -109,6 +114,17 @@ def run_shard(shard, ctx):
                 ctx.evaluations += len(notes)
                 if got != expected:
                     e1.report(ctx, "membership", text, PROBE_SRC, [expected], got, "%d phrases (%s) %r, note ticks %r" % (len(phr), name, phr[:6], notes[:12]))
+        return
+    if kind == "big":
+        base = BASES[shard[1]]
+        if shard[2] < 0:
+            check_list(ctx, (), ("merged",), 7, base)
+        else:
+            p = PHR[shard[2]]
+            check_list(ctx, (p,), ("before",), 7, base)
+            for q in PHR[:: 4]:
+                if p[0] <= q[0]:
+                    check_list(ctx, (p, q), ("before",), 5, base)
         return
     if kind == "k1":
         if shard[1] < 0:
